@@ -508,45 +508,5 @@ set_option maxRecDepth 100000 in
 theorem retRun_ok : retOk retInit retRun = true := by decide
 
 
-/-- the history and the final state of `retRun` -/
-abbrev retH : List (BState × Act) := retHist retInit retRun
-abbrev retB : BState := retFinal retInit retRun
-
-theorem retRun_run : RunH { BState.init retCfg 0 [1, 2, 3, 4] 3 with storeShard := [] } retH retB :=
-  retRunH retRun_ok
-
-set_option maxRecDepth 100000 in
-/-- **Non-vacuity: every premise of `C03_layerB_retained'` holds of `retRun`** — key 1, the write
-    `put_or_update(1, Some(101))` issued by client 0 at 37 and answered `Accepted` by action 51, the incarnation born by
-    the `store.put` action 18, the lookups 91 (`get`), 92 (`get_ref`) and 97 (position 1 of `multi_get([3, 1, 2])`). -/
-theorem C03_layerB_retained_witness :
-    DemandFits retCfg retH ∧ NoShutdownReq retH ∧
-    (∃ s₀, At retH 37 (s₀, .issue 0 (.upsert 1 (some 101) none none false)) ∧
-      (∀ p i r, p < 37 → Issued retH i r p → r.danger 1 = true → AnsweredBy retH retB i p 37 s₀)) ∧
-    ((∀ x, At retH 18 x → isPutAny 1 x) ∧ LiveDuring 1 retH 19 37) ∧
-    AckedAcceptedAt retH retB 0 37 52 ∧
-    (∀ q s i r, 37 < q → q < 99 → At retH q (s, .issue i r) → r.danger 1 = false) ∧
-    LiveDuring 1 retH 37 99 ∧
-    (∃ s, At retH 91 (s, .client 0) ∧ s.cl[0]? = some (.getStore 1)) ∧
-    (∃ s, At retH 92 (s, .client 1) ∧ s.cl[1]? = some (.refStore 1)) ∧
-    (∃ s, At retH 97 (s, .client 2) ∧ s.cl[2]? = some (.mgetStore 1 [2] [some 301] false)) ∧
-    Issued retH 0 (.get 1) 85 ∧ Returned retH retB 0 94 (.value (some 101)) ∧
-    Issued retH 1 (.getRef 1) 86 ∧ Returned retH retB 1 95 (.value (some 101)) := by
-  refine ⟨by decide, by decide, ⟨_, rfl, ?_⟩, ⟨?_, liveDuring_check (by decide)⟩, ?_, noDanger_check (by decide),
-    liveDuring_check (by decide), ⟨_, rfl, rfl⟩, ⟨_, rfl, rfl⟩, ⟨_, rfl, rfl⟩, ⟨_, rfl⟩,
-    ⟨_, _, rfl, Or.inr ⟨_, rfl⟩, rfl, rfl⟩, ⟨_, rfl⟩, ⟨_, _, rfl, Or.inr ⟨_, rfl⟩, rfl, rfl⟩⟩
-  · -- the one put of key 1 issued before: client 0 at 0, returned at 4, answered by then
-    intro p i r hp hi hd
-    obtain ⟨rfl, rfl⟩ := dangerIssued_check (P := fun q i _ => q = 0 ∧ i = 0) (h := retH) (k := 1) (n := 37)
-      (by decide) p i r hp hi hd
-    exact ⟨4, .ack 0 .pending, ⟨by decide, ⟨_, _, rfl, Or.inr ⟨_, rfl⟩, rfl, rfl⟩, noIssue_check (by decide)⟩,
-      by decide, fun hd st e => by cases e; exact ⟨.accepted, rfl, by simp⟩⟩
-  · intro x hx
-    have h18 : At retH 18 (_, .worker) := rfl
-    cases hx.inj h18
-    exact ⟨100, 1, rfl, _, _, rfl, rfl, rfl, rfl, rfl⟩
-  · exact ⟨48, 3, .pending, _, _, ⟨by decide, ⟨_, _, rfl, Or.inr ⟨_, rfl⟩, rfl, rfl⟩, noIssue_check (by decide)⟩,
-      by decide, rfl, rfl⟩
-
 end B
 end Cached
